@@ -11,6 +11,7 @@ oracle:         the same observations vs `pdshmodel rcmd spec` (token grammar / 
 """
 import itertools
 import json
+import re
 import os
 import pwd
 import subprocess
@@ -766,7 +767,26 @@ def part_d(ctx, cov, dist, rng, repo, only=None):
                 pad = max(1, total - base - 16)
                 cmd = cmd + [("y" * (pad - 1)) + "Z"]
             return {"addrs": addrs, "words": words, "want": want, "l": l, "cmd": cmd}
-        for g in ((gen() for _ in range(n)) if only is None else only):
+
+        def sweep():
+            """one request for EVERY value of  strlen(luser)+1+strlen(ruser)+1+strlen(cmd)  in the windows
+            [c-8, c+8] around LINEBUFSIZE (generated from dsh.h of the tree under test) and 1024, 4096, 8192,
+            65536, for two (luser, ruser) pairs of different lengths"""
+            m = re.search(r"def LINEBUFSIZE : Nat := (\d+)", open(os.path.join(os.path.dirname(HARNESS), "lean", "PdshVerif", "Gen",
+                                                                          "Dsh.lean")).read())
+            lbs = int(m.group(1)) if m else 2048
+            dist["rsh_linebufsize"] = lbs
+            out = []
+            for ruser in (None, "a_longer_remote_user"):
+                ru = ruser or luser
+                for c in sorted({lbs, 1024, 4096, 8192, 65536}):
+                    for s_ in range(c - 8, c + 9):
+                        k = s_ - len(luser) - len(ru) - 2
+                        out.append({"addrs": [PEER_ADDRS[0]], "words": [PEER_ADDRS[0]], "want": {PEER_ADDRS[0]: None}, "l": ruser,
+                                    "cmd": ["e " + "y" * (k - 3) + "Z"], "sweep": s_})
+            return out
+        import itertools as _it
+        for g in (_it.chain(sweep(), (gen() for _ in range(n))) if only is None else only):
             if len(ctx.violations) - nviol0 >= 3:
                 break               # a broken handshake makes every run wait for time-outs
             addrs, words, want, l, cmd = g["addrs"], g["words"], g["want"], g["l"], g["cmd"]
@@ -793,6 +813,10 @@ def part_d(ctx, cov, dist, rng, repo, only=None):
                                  "fields: %r ..." % (addr, len(data), data[:80]), dict(case, request_len=len(data)))
                     continue
                 pf, lu, ru, cm = [unhx(x) for x in pl.split()[1:]]
+                if g.get("sweep") is not None:
+                    # the total the sweep is about, measured on what the peer really received
+                    dist.setdefault("rsh_sweep_lengths", {}).setdefault("luser=%d,ruser=%d" % (len(lu), len(ru)), []).append(
+                        len(lu) + 1 + len(ru) + 1 + len(cm))
                 exp_ru = want.get(addr) or l or luser
                 exp_cmd = " ".join(cmd)
                 okport = (pf == "" and backok is None) or (pf.isdigit() and backok is True)
@@ -954,7 +978,7 @@ def replay_items(ctx):
 
 def run(ctx):
     rng = ctx.rng
-    ctx.gen_consts(["modopt"])
+    ctx.gen_consts(["modopt", "dsh"])
     ctx.lean_build([PROPS, "pdshmodel"])
     ctx.audit(PROPS)
     cov = {"evaluations": 0, "distinct_nontrivial": 0, "samples": [],
